@@ -1381,6 +1381,14 @@ def gt_debuginc(ctx: Ctx) -> RuleResult:
     weak = [x for x in exprs if (isinstance(x, ast.Call) and dotted(x.func) == "any") or "isdisjoint" in norm_src(x) or ".intersection(" in norm_src(x)]
     subset = [x for x in exprs if isinstance(x, ast.Call) and isinstance(x.func, ast.Attribute) and x.func.attr == "issubset" and p in names_in(x)] + \
         [x for x in exprs if isinstance(x, ast.Call) and dotted(x.func) == "all" and "predecessors" in norm_src(x)]
+    # ... and they must be contained in the SELECTION: a superset widened by anything else takes unselected predecessors for provided
+    for x in subset:
+        if isinstance(x.func, ast.Attribute) and x.func.attr == "issubset" and x.args:
+            sup = x.args[0]
+            wide = [c for c in ast.walk(sup) if (isinstance(c, ast.BinOp) and isinstance(c.op, ast.BitOr))
+                    or (isinstance(c, ast.Call) and isinstance(c.func, ast.Attribute) and c.func.attr == "union")]
+            if wide:
+                filtered.append(sup)
     ok = bool(subset) and not filtered and not weak
     r.ob(ok, {"inclusion guarded by": [norm_src(t) for t in tests], "expanded": [norm_src(x)[:120] for x in pred_exprs]})
     if filtered or weak:
